@@ -303,6 +303,11 @@ def run_rand(shard, rec, B):
         L = int(rng.integers(1, N + 3))
         og, op = gen.commuting_hermitian_list(rng, tg, tp, r, L)
         measure_case(rec, B, tg, tp, r, og, op, dense=(N <= 5 and t % 2 == 0))
+        # the same clauses through the circuit-level entry point for Z measurements (a measurement layer)
+        if t % 7 == 0:
+            from .c14 import layer_case
+            qs = [int(x) for x in rng.permutation(N)[:int(rng.integers(1, N + 1))]]
+            layer_case(rec, B, tg, tp, r, qs)
         # a state as the observable: its active stabilizers are measured
         if t % 10 == 0:
             sg, sp, sr = O.random_tableau(rng, N)
